@@ -6,8 +6,11 @@ REPO = os.environ.get("GECS_REPO", "/repo")
 ENGINES = os.path.join(VERIF, "engines")
 WORK = os.path.join(VERIF, "work")
 TARGET = os.path.join(VERIF, "target")
-EVIDENCE = os.path.join(VERIF, "evidence")
-REPLAYS = os.path.join(VERIF, "replays")
+# Evidence and replay artefacts of a run against something other than /repo (a scratch worktree with a mutant or a
+# seeded change applied) never land in the committed directories.
+_ALT = os.path.join(WORK, "alt") if os.path.realpath(REPO) != "/repo" else VERIF
+EVIDENCE = os.path.join(_ALT, "evidence")
+REPLAYS = os.path.join(_ALT, "replays")
 KNOWN = os.path.join(VERIF, "known_findings.json")
 NCPU = os.cpu_count() or 4
 MAXV = 4294967295
